@@ -239,6 +239,12 @@ func weirdSubs(r *rng) astisub.Subtitles {
 			st.Style = st // self reference
 		}
 		styles = append(styles, st)
+		if len(styles) >= 2 && r.chance(1, 8) { // a cycle through two or more styles (the TTML reader accepts such documents)
+			styles[0].Style = st
+			if st.Style == nil || st.Style == st {
+				st.Style = styles[0]
+			}
+		}
 		if s.Styles != nil && r.chance(3, 4) {
 			s.Styles[st.ID] = st
 		}
